@@ -519,7 +519,7 @@ pub fn run(run: &Run) {
     run.assume("field names are lower-case RFC 9110 tokens not starting with ':'; values have no leading/trailing whitespace and no CR/LF/NUL; the encoded section stays below the peer's 4096-byte parse cap; URLs are in WHATWG-normalised form");
     prop_search(
         run,
-        Search { check: "session-setup", cases: run.tier.pick(3000, 30000), workers: 8, max_shrink_iters: 200 },
+        Search { check: "session-setup", cases: run.tier.pick(3000, 120000), workers: 8, max_shrink_iters: 200 },
         case_strategy,
         |c| judge(|| exec(c), false, "C02:hang"),
         |c| serde_json::to_value(c).unwrap(),
